@@ -1,1 +1,144 @@
-//! backend configurations
+//! Input back-end configurations (DESIGN C02/C07): the same logical word realised as every container.
+use crate::elem::*;
+use ndarray::{s, Array1};
+use polars::prelude::*;
+use std::collections::VecDeque;
+use std::sync::Arc;
+use tevec::prelude::{IsNone, Vec1View};
+
+/// A generic visitor: called once per back-end configuration with the concrete container.
+pub trait BackendVisitor<T> {
+    fn visit<V: Vec1View<T>>(&mut self, name: &str, v: &V);
+}
+
+/// ring buffer of capacity `cap` whose head sits at physical offset `off`
+pub fn deque_with_head<T: Clone>(items: &[T], cap: usize, off: usize, filler: T) -> VecDeque<T> {
+    let mut d: VecDeque<T> = VecDeque::with_capacity(cap);
+    for _ in 0..off {
+        d.push_back(filler.clone());
+    }
+    for _ in 0..off {
+        d.pop_front();
+    }
+    for it in items {
+        d.push_back(it.clone());
+    }
+    d
+}
+
+/// base array and a strided view description so that the view reads exactly `items`
+pub fn strided_base<T: Clone>(items: &[T], step: isize, filler: T) -> Array1<T> {
+    let n = items.len();
+    let a = step.unsigned_abs();
+    let mut base = vec![filler; n * a + 2];
+    for (i, it) in items.iter().enumerate() {
+        let logical = if step > 0 { i } else { n - 1 - i };
+        base[1 + logical * a] = it.clone();
+    }
+    Array1::from_vec(base)
+}
+
+macro_rules! fixed_arrays {
+    ($vis:expr, $items:expr, $($n:literal),*) => {
+        match $items.len() {
+            $($n => {
+                let arr: [T; $n] = std::array::from_fn(|i| $items[i].clone());
+                $vis.visit(concat!("[T;", stringify!($n), "]"), &arr);
+            })*
+            _ => {}
+        }
+    };
+}
+
+/// All element-generic input back ends. `level`: 0 = the five container kinds once each,
+/// 1 = every ring offset / stride / fixed array as well.
+pub fn for_backends<T: Elem, Vis: BackendVisitor<T>>(word: &[X], level: u8, vis: &mut Vis) {
+    let items: Vec<T> = enc_vec(word);
+    let n = items.len();
+    let filler = items.first().cloned().unwrap_or_else(|| T::enc(Some(0.0)));
+    vis.visit("Vec", &items);
+    vis.visit("Arc<Vec>", &Arc::new(items.clone()));
+    let arr = Array1::from_vec(items.clone());
+    vis.visit("Array1", &arr);
+    vis.visit("ArrayView1", &arr.view());
+    {
+        let mut arr2 = arr.clone();
+        vis.visit("ArrayViewMut1", &arr2.view_mut());
+    }
+    vis.visit("Arc<Array1>", &Arc::new(arr.clone()));
+    if level >= 1 {
+        fixed_arrays!(vis, items, 0, 1, 2, 3, 4, 5, 6, 7);
+    }
+    let offs: Vec<usize> = if level >= 1 { (0..8).collect() } else { vec![0, 6] };
+    for off in offs {
+        let d = deque_with_head(&items, 8, off, filler.clone());
+        let wrapped = !d.as_slices().1.is_empty();
+        vis.visit(&format!("VecDeque(head={off}{})", if wrapped { ",wrapped" } else { "" }), &d);
+    }
+    let steps: Vec<isize> = if level >= 1 { vec![2, 3, -1, -2] } else { vec![2, -1] };
+    for step in steps {
+        let base = strided_base(&items, step, filler.clone());
+        let a = step.unsigned_abs();
+        let view = if n == 0 {
+            base.slice(s![1..1])
+        } else if step > 0 {
+            base.slice(s![1..1 + (n - 1) * a + 1; step])
+        } else {
+            base.slice(s![1..1 + (n - 1) * a + 1; step])
+        };
+        debug_assert_eq!(view.len(), n);
+        vis.visit(&format!("ArrayView1(step={step})"), &view);
+    }
+}
+
+/// splits of `n` into 1..=3 non-empty chunks (n = 0: one empty chunk)
+pub fn chunkings(n: usize) -> Vec<Vec<usize>> {
+    let mut out = vec![vec![n]];
+    for a in 1..n {
+        out.push(vec![a, n - a]);
+        for b in 1..(n - a) {
+            out.push(vec![a, b, n - a - b]);
+        }
+    }
+    out
+}
+
+pub fn chunked_f64(word: &[X], chunks: &[usize]) -> Float64Chunked {
+    let mut pos = 0;
+    let mut ca: Option<Float64Chunked> = None;
+    for &c in chunks {
+        let part = Float64Chunked::from_slice_options("".into(), &word[pos..pos + c]);
+        pos += c;
+        ca = Some(match ca {
+            None => part,
+            Some(mut acc) => {
+                acc.append(&part).unwrap();
+                acc
+            }
+        });
+    }
+    ca.unwrap_or_else(|| Float64Chunked::from_slice_options("".into(), &[]))
+}
+
+/// Back ends whose element type is Option<f64>: Vec<Option<f64>>, the option view over Vec<f64>,
+/// VecDeque / ndarray of options, and Polars Float64Chunked under every chunking.
+pub fn for_backends_opt<Vis: BackendVisitor<Option<f64>>>(word: &[X], level: u8, vis: &mut Vis) {
+    for_backends::<Option<f64>, Vis>(word, level, vis);
+    let nan: Vec<f64> = enc_vec(word);
+    vis.visit("OptIter<Vec<f64>>", &nan.opt());
+    let arr = Array1::from_vec(nan.clone());
+    vis.visit("OptIter<Array1<f64>>", &arr.opt());
+    let chs = if level >= 1 { chunkings(word.len()) } else { chunkings(word.len()).into_iter().rev().take(2).collect() };
+    for ch in chs {
+        let ca = chunked_f64(word, &ch);
+        vis.visit(&format!("Float64Chunked{ch:?}"), &ca);
+        if level >= 1 {
+            vis.visit(&format!("&Float64Chunked{ch:?}"), &&ca);
+        }
+    }
+}
+
+/// helper so callers can name the IsNone bound without importing tevec
+pub fn is_null<T: IsNone>(v: &T) -> bool {
+    v.is_none()
+}
